@@ -172,6 +172,43 @@ TV = {
     'C29': tvs('s c', 'mix life misc', chaos=0.4),
 }
 
+
+# ---------------------------------------------------------------- the repository's own tests as recorded traces
+# quick: the test files closest to the property; thorough: the whole suite.  (harness/recplug.py records what the tests do to
+# every H2Connection they create; the recordings are validated by TLC like the random ones.)
+ALL_TESTS = ['test']
+CORPUS = {
+    'C01': ['test/test_interacting_stacks.py', 'test/test_complex_logic.py', 'test/test_related_events.py'],
+    'C02': ['test/test_priority.py', 'test/test_complex_logic.py', 'test/test_informational_responses.py'],
+    'C03': ['test/test_flow_control_window.py'],
+    'C04': ['test/test_flow_control_window.py'],
+    'C05': ['test/test_flow_control_window.py'],
+    'C06': ['test/test_closed_streams.py', 'test/test_stream_reset.py', 'test/test_invalid_frame_sequences.py'],
+    'C07': ['test/test_related_events.py', 'test/test_informational_responses.py', 'test/test_invalid_frame_sequences.py'],
+    'C08': ['test/test_informational_responses.py', 'test/test_rfc7838.py', 'test/test_priority.py'],
+    'C09': ['test/test_closed_streams.py', 'test/test_complex_logic.py'],
+    'C10': ['test/test_complex_logic.py', 'test/test_closed_streams.py'],
+    'C11': ['test/test_complex_logic.py', 'test/test_flow_control_window.py'],
+    'C12': ['test/test_flow_control_window.py', 'test/test_rfc8441.py'],
+    'C13': ['test/test_interacting_stacks.py', 'test/test_stream_reset.py', 'test/test_rfc8441.py'],
+    'C14': ['test/test_invalid_headers.py'],
+    'C15': ['test/test_invalid_headers.py'],
+    'C16': ['test/test_invalid_content_lengths.py', 'test/test_head_request.py', 'test/test_informational_responses.py'],
+    'C17': ['test/test_invalid_frame_sequences.py', 'test/test_closed_streams.py'],
+    'C18': ['test/test_invalid_frame_sequences.py', 'test/test_invalid_content_lengths.py'],
+    'C19': ['test/test_closed_streams.py', 'test/test_invalid_frame_sequences.py'],
+    'C20': ['test/test_stream_reset.py', 'test/test_closed_streams.py'],
+    'C21': ['test/test_complex_logic.py', 'test/test_related_events.py'],
+    'C22': ['test/test_closed_streams.py', 'test/test_stream_reset.py'],
+    'C23': ['test/test_priority.py'],
+    'C24': ['test/test_rfc7838.py'],
+    'C25': ['test/test_h2_upgrade.py'],
+    'C26': ['test/test_complex_logic.py'],
+    'C27': ['test/test_closed_streams.py', 'test/test_utility_functions.py'],
+    'C28': ['test/test_interacting_stacks.py', 'test/test_rfc7838.py'],
+    'C29': ['test/test_priority.py', 'test/test_h2_upgrade.py', 'test/test_rfc7838.py'],
+}
+
 # formulas of spec/Scn.tla that belong to each property (a PROPFAIL of one of them on a recorded trace is a violation of it)
 FORMULAS = {pid: sorted({i for sc_ in PROPS[pid]['scenarios'] for i in sc_.get('invariants', [])}) for pid in PROPS}
 FORMULAS['C10'] = FORMULAS['C10'] + ['P_C10_InboundWithinLocalLimit']
